@@ -546,6 +546,30 @@ let run_case (toks : sx list) : string =
   | [A "fungrow"; A tid] ->
       let t = ty_named tid in
       "row=" ^ String.concat "" (List.map (fun id -> if M.fungible t (ty_named id) then "1" else "0") !pool_order)
+  (* thr SEED SCRIPTS: ThreadLocal observations per thread, on a round-robin interleaving *)
+  | [A "thr"; A _; A scripts] ->
+      let threads = List.map (fun s -> String.split_on_char ',' s) (String.split_on_char ';' scripts) in
+      let parse (s : string) : M.top option =
+        if s = "" then None else
+        let a = String.split_on_char ':' (String.sub s 1 (String.length s - 1)) in
+        let slot () = nat_of_int (int_of_string (List.nth a 0)) and x () = z_of_int (int_of_string (List.nth a 1)) in
+        match s.[0] with
+        | 'N' -> Some (M.TNew (slot (), x ())) | 'I' -> Some (M.TInit (slot (), x ())) | 'G' -> Some (M.TGet (slot ()))
+        | 'S' -> Some (M.TSet (slot (), x ())) | 'C' -> Some (M.TClear (slot ())) | _ -> None in
+      let tl = List.mapi (fun i ops -> List.filter_map (fun o -> match parse o with Some op -> Some (nat_of_int i, op) | None -> None) ops) threads in
+      (* round robin *)
+      let rec rr (qs : (M.nat * M.top) list list) acc =
+        if List.for_all (fun q -> q = []) qs then List.rev acc
+        else
+          let heads = List.filter_map (function [] -> None | h :: _ -> Some h) qs in
+          rr (List.map (function [] -> [] | _ :: t -> t) qs) (List.rev_append heads acc) in
+      let trace = rr tl [] in
+      let (_, obs) = M.trun M.empty_store trace in
+      (* only Get() produces an observation: keep those *)
+      let gets = List.filter (fun ((_, op), _) -> match op with M.TGet _ -> true | _ -> false) (List.combine trace obs) in
+      let per i = List.filter_map (fun ((t, _), (_, o)) -> if t = nat_of_int i then
+                     Some (match o with Some v -> "G:" ^ string_of_z v | None -> "G:none") else None) gets in
+      "tl=" ^ String.concat ";" (List.mapi (fun i _ -> let l = per i in if l = [] then "-" else String.concat "," l) threads)
   (* rpc IFACE SET TAG | action | ... : a caller and a dispatcher joined by two byte streams *)
   | A "rpc" :: A k :: A s :: A tag :: rest ->
       let k = int_of_string k in
